@@ -15,15 +15,18 @@ import (
 
 // Node is one object of a generated tree (pure data; content is a PRF stream).
 type Node struct {
-	Name     string  `json:"name"`
-	Kind     string  `json:"kind"` // file | dir | symlink
-	Size     int64   `json:"size,omitempty"`
-	Seed     uint64  `json:"seed,omitempty"`
-	Target   string  `json:"target,omitempty"` // symlink target, as written into the link
-	MTime    int64   `json:"mtime,omitempty"`  // unix seconds, 0 = leave
-	Sparse   bool    `json:"sparse,omitempty"` // file: holes with PRF islands (see Content)
-	Raw      BStr    `json:"rawc,omitempty"`   // file: literal content instead of PRF (small fixtures)
-	Children []*Node `json:"children,omitempty"`
+	Name             string     `json:"name"`
+	Kind             string     `json:"kind"` // file | dir | symlink
+	Size             int64      `json:"size,omitempty"`
+	Seed             uint64     `json:"seed,omitempty"`
+	Target           string     `json:"target,omitempty"` // symlink target, as written into the link
+	MTime            int64      `json:"mtime,omitempty"`  // unix seconds, 0 = leave
+	Sparse           bool       `json:"sparse,omitempty"` // file: holes with PRF islands (see Content)
+	Raw              BStr       `json:"rawc,omitempty"`   // file: literal content instead of PRF (small fixtures)
+	Spans            [][2]int64 `json:"spans,omitempty"`  // sparse file: extra [from,to) ranges holding PRF data
+	NoDefaultIslands bool       `json:"no_default_islands,omitempty"`
+	Patches          []Patch    `json:"patches,omitempty"` // literal bytes laid over the content
+	Children         []*Node    `json:"children,omitempty"`
 }
 
 func Dir(name string, ch ...*Node) *Node { return &Node{Name: name, Kind: "dir", Children: ch} }
@@ -34,6 +37,12 @@ func RawFile(name string, content []byte) *Node {
 	return &Node{Name: name, Kind: "file", Size: int64(len(content)), Raw: BStr(content)}
 }
 func Link(name, target string) *Node { return &Node{Name: name, Kind: "symlink", Target: target} }
+
+// Patch is literal data at an offset (signatures, headers).
+type Patch struct {
+	Off  int64 `json:"off"`
+	Data BStr  `json:"data"`
+}
 
 const islandSize = 8192
 
@@ -63,6 +72,29 @@ func (n *Node) islands() []int64 {
 	return is
 }
 
+// spans returns the data-carrying ranges of a sparse file.
+func (n *Node) spans() [][2]int64 {
+	var sp [][2]int64
+	if !n.NoDefaultIslands {
+		for _, is := range n.islands() {
+			sp = append(sp, [2]int64{is, is + islandSize})
+		}
+	}
+	for _, s := range n.Spans {
+		a, b := s[0], s[1]
+		if a < 0 {
+			a = 0
+		}
+		if b > n.Size {
+			b = n.Size
+		}
+		if a < b {
+			sp = append(sp, [2]int64{a, b})
+		}
+	}
+	return sp
+}
+
 // Content returns bytes [off, off+n) of the file (clipped at Size).
 func (n *Node) Content(off int64, cnt int) []byte {
 	if off >= n.Size {
@@ -71,20 +103,30 @@ func (n *Node) Content(off int64, cnt int) []byte {
 	if int64(cnt) > n.Size-off {
 		cnt = int(n.Size - off)
 	}
-	if len(n.Raw) > 0 {
-		return []byte(n.Raw[off : off+int64(cnt)])
+	var out []byte
+	switch {
+	case len(n.Raw) > 0:
+		out = append([]byte(nil), n.Raw[off:off+int64(cnt)]...)
+	case !n.Sparse:
+		out = PRFBytes(n.Seed, off, cnt)
+	default:
+		out = make([]byte, cnt)
+		for _, sp := range n.spans() {
+			lo, hi := sp[0], sp[1]
+			if hi <= off || lo >= off+int64(cnt) {
+				continue
+			}
+			a, b := max64(lo, off), min64(hi, off+int64(cnt))
+			PRFFill(n.Seed, a, out[a-off:b-off])
+		}
 	}
-	if !n.Sparse {
-		return PRFBytes(n.Seed, off, cnt)
-	}
-	out := make([]byte, cnt)
-	for _, is := range n.islands() {
-		lo, hi := is, is+islandSize
+	for _, p := range n.Patches {
+		lo, hi := p.Off, p.Off+int64(len(p.Data))
 		if hi <= off || lo >= off+int64(cnt) {
 			continue
 		}
 		a, b := max64(lo, off), min64(hi, off+int64(cnt))
-		PRFFill(n.Seed, a, out[a-off:b-off])
+		copy(out[a-off:b-off], p.Data[a-lo:b-lo])
 	}
 	return out
 }
@@ -134,10 +176,18 @@ func materializeOne(dir string, c *Node) error {
 				f.Close()
 				return err
 			}
-			for _, is := range c.islands() {
-				if _, err := f.WriteAt(c.Content(is, islandSize), is); err != nil {
+			for _, sp := range c.spans() {
+				if _, err := f.WriteAt(c.Content(sp[0], int(sp[1]-sp[0])), sp[0]); err != nil {
 					f.Close()
 					return err
+				}
+			}
+			for _, pt := range c.Patches {
+				if pt.Off < c.Size {
+					if _, err := f.WriteAt(c.Content(pt.Off, len(pt.Data)), pt.Off); err != nil {
+						f.Close()
+						return err
+					}
 				}
 			}
 		} else {
